@@ -2,7 +2,13 @@ SPEC = {
     "id": "C15",
     "level": "proof",
     "theorem_modules": ["GluonModel.Theorems.C15"],
-    "correspondences": [],
+    "correspondences": [
+        # rfc822.NewHeader + Header.Entries (name as written, merged = unfolded value: what the header-string keys of SEARCH
+        # read through Header.Get) against Search.headerOf (C13's entry parser + Search.unfold = mergeMultiline with
+        # bytes.TrimSpace on UTF-8): header blocks with every fold shape of the search oracle plus byte-level damage
+        # (bare LF, CR alone, Unicode white space and ill-formed look-alikes next to the breaks, missing closing break)
+        {"dialect": "c15-unfold", "quick_n": 30000, "thorough_n": 400000},
+    ],
     "oracles": [
         # whole server over TCP, mailboxes known by construction, views that still hold messages expunged elsewhere
         # (VerifHold / Barrier), generated SEARCH / UID SEARCH trees (depth <= 6, every key kind, CHARSET variants),
@@ -15,6 +21,16 @@ SPEC = {
         # 131 and 257 messages (thorough: also 263 521 1031; primes, so no worker count divides them) whose distinguished
         # messages are the first and the last of the view, run on the parallel AND the serial server, judged by the model
         # and compared with each other. Generated worlds also draw dates on day boundaries and date keys from message dates.
+        # `folds` (harness/o_search_folds.go) = for each of Subject From To Cc Bcc and HEADER X-Tag / Received / References a message
+        # whose field is folded (CRLF + blanks / tabs, white space before the break, a break right after the colon or inside a
+        # word, a white-space-only continuation line, U+00A0 at the line end, several folds, long fields), its twin on one line and a
+        # look-alike with the raw white space; search strings spanning each fold / starting or ending on it / one character on each
+        # side / the whole value / case-flipped, and the strings that only occur in the RAW block (raw separator, two blanks, tab,
+        # no blank) — alone, under NOT, in OR / lists with keys that match nothing, next to keys that hit the same message (another
+        # header-string key, SENT*, TEXT), SEARCH and UID SEARCH, on both servers. Every generated message of every world draws its
+        # folds from the same generator, half of the generated header-string keys take their string from the messages' unfolded
+        # values, and the header claimed for each message is checked against Search.hdrOfLiteral of the stored literal (judge-c15-hdr).
+        # corpus/C15/folded-subject.world: the hand-written regression of that class.
         {"name": "c15search", "quick_args": ["-n", "300"], "thorough_args": ["-n", "10000"], "timeout": 1500},
     ],
     "rule": "evaluations = SEARCH / UID SEARCH commands answered by the real server and judged in Lean; "
@@ -30,10 +46,13 @@ SPEC = {
         "the server with parallel evaluation, compared with the model and with the server built with WithDisableParallelism)",
         "reference semantics GluonModel/Spec/SearchSpec.lean (RFC 3501 6.4.4 key by key; INTERNALDATE day = the UTC day the server "
         "reports in FETCH INTERNALDATE; Date-header day = the day named in the header's own zone; envelope keys read as HEADER keys)",
-        "abstract message data: size/date (GetMessageDateAndSize), literal (store), header entries and merged values "
-        "(rfc822.NewHeader/getMerged: C13's model), body (rfc822.Parse), Date parsing (rfc5322.ParseDateTime), charset decoding "
-        "(golang.org/x/text ianaindex decoders) are values the oracle knows by construction or computes with the same library; "
-        "they are inputs of the model, not modelled",
+        "abstract message data: size/date (GetMessageDateAndSize), literal (store), body (rfc822.Parse), Date parsing "
+        "(rfc5322.ParseDateTime), charset decoding (golang.org/x/text ianaindex decoders) are values the oracle knows by construction or "
+        "computes with the same library; they are inputs of the model, not modelled",
+        "header entries and merged (unfolded) values: hand-written model GluonModel/Model/SearchHeader.lean (hdrOfLiteral = C13's entry "
+        "parser Rfc822.parseEntries + unfold = rfc822.mergeMultiline with bytes.TrimSpace on UTF-8), tied to rfc822.NewHeader + "
+        "Header.Entries by the correspondence dialect c15-unfold (differential testing), and to every message of the wire oracle by "
+        "judge-c15-hdr (the fields / unfolded values the generator claims = what the model derives from the stored literal)",
         "oracle harness/o_search.go (message generator's knowledge of header fields / unfolded values / body / dates; view taken from the "
         "observer's own FETCH 1:* (UID FLAGS)); verif hooks VerifHold / VerifBarrier / VerifStates (verif_api.go)",
     ],
@@ -43,7 +62,10 @@ SPEC = {
         "case has a witness theorem that the oracle replays on the real server (scenarios since-zone, header-dup, header-empty, "
         "named-dup, named-empty, sent-unparsable, uid-empty-mailbox, uid-star-above, seq-beyond-count); scenario charset-unsupported is the regression of fix 3279020",
         "the model starts at the parsed command (command.Search): number, date text and astring parsing are C10/C11/C16's (the oracle only checks that a number of 2^32 or more is answered BAD)",
-        "strings.ToLower / bytes.ToLower are modelled on ASCII letters only; the oracle generates cased letters in ASCII only (non-ASCII text is caseless or lower case)",
+        "strings.ToLower / bytes.ToLower are modelled on ASCII letters only; the oracle generates cased letters in ASCII only (non-ASCII text is caseless or lower case) "
+        "and only well-formed UTF-8 in header values of the wire oracle (strings.ToLower maps ill-formed bytes to U+FFFD; ill-formed bytes are covered for unfolding only, dialect c15-unfold)",
+        "gluon's unfolding is mergeMultiline, not RFC 5322 unfolding: CRLF with ALL the white space around it reads as one blank (RFC: only the CRLF goes, "
+        "so CRLF TAB would read as a tab); the reference semantics takes the value Header.Get answers as THE field value, so this is not reported as a deviation",
         "every message of the view is loadable from database and store (gluon keeps messages a live state references; exercised by the "
         "expunged-elsewhere worlds); context cancellation, store/database failures are not modelled",
         "parallel evaluation: parallel_agrees_with_serial holds for every schedule that covers the view (Covers); the number of workers "
@@ -54,6 +76,9 @@ SPEC = {
     "explanation": "Lean theorems over the SEARCH model for all key trees, views and message data: every answer is ascending and duplicate-free and "
                    "drawn from the view; under the named per-key hypotheses it is exactly the filter of the view by the RFC predicate; NOT = complement, "
                    "serial = parallel evaluation for every covering schedule, ON d = NOT BEFORE d BEFORE d+1, "
-                   "OR = union, list/juxtaposition = intersection, UID SEARCH = same messages by UID; per-key lemmas and witnesses for each deviation. "
+                   "OR = union, list/juxtaposition = intersection, UID SEARCH = same messages by UID; a header-string key tests the UNFOLDED value of the first field of its name "
+                   "and nothing else (header_key_on_unfolded, search_on_unfolded), a line break with the white space around it reads as one blank wherever it stands "
+                   "(unfold_folded, fold_placement_irrelevant; folded_subject_witness: a string spanning a fold matches although it is not in the raw header block); "
+                   "per-key lemmas and witnesses for each deviation. "
                    "The model is tied to the real server by the wire-level oracle, whose every answer is judged in Lean against model and RFC spec.",
 }
